@@ -249,6 +249,18 @@ func (x *Exec) reach(st *State, anchor string) {
 	x.obls = append(x.obls, ob)
 }
 
+// reachOnce: a reachability (vacuity) check recorded only for the first path
+// that gets to the anchor.
+func (x *Exec) reachOnce(st *State, anchor string) {
+	name := x.fnName + "#reach@" + anchor
+	for _, ob := range x.obls {
+		if ob.Name == name {
+			return
+		}
+	}
+	x.reach(st, anchor)
+}
+
 // Query text for an obligation.
 func (x *Exec) query(ob *Obligation, model bool) string {
 	var sb strings.Builder
